@@ -350,7 +350,23 @@ def case_refusal(ctx, index, rng: random.Random):
             elif kind == "pl_df_to_h1":
                 physt.h1(pl.DataFrame({"a": [1.0, 2.0], "b": [2.0, 3.0]}), 2)
             elif kind == "weights_shape":
-                physt.h1([1.0, 2.0, 3.0], np.array([0.0, 2.0, 4.0]), weights=[1.0, 2.0])
+                x6 = np.array([0.5, 1.5, 2.5, 3.5, 0.6, 1.6])
+                which_ = rng.randrange(7)
+                if which_ == 0:
+                    physt.h1([1.0, 2.0, 3.0], np.array([0.0, 2.0, 4.0]), weights=[1.0, 2.0])
+                elif which_ == 1:
+                    # as many weights as values, in another shape: whose weight is whose is anybody's guess
+                    physt.h1(x6, np.array([0.0, 2.0, 4.0]), weights=np.arange(6.0).reshape(2, 3))
+                elif which_ == 2:
+                    physt.h1(x6, np.array([0.0, 2.0, 4.0]), weights=np.arange(6.0).reshape(6, 1))
+                elif which_ == 3:
+                    physt.h1(x6.reshape(2, 3), np.array([0.0, 2.0, 4.0]), weights=np.arange(6.0).reshape(3, 2))
+                elif which_ == 4:
+                    physt.h1(pd.Series(x6), np.array([0.0, 2.0, 4.0]), weights=np.arange(6.0).reshape(1, 6))
+                elif which_ == 5:
+                    physt.h(np.stack([x6, x6], axis=1), [np.array([0.0, 2.0, 4.0])] * 2, weights=np.arange(6.0).reshape(6, 1))
+                else:
+                    physt.h2(x6, x6, [np.array([0.0, 2.0, 4.0])] * 2, weights=np.arange(6.0).reshape(3, 2))
             elif kind == "pd_df_dim_mismatch":
                 physt.h(pd.DataFrame({"a": [1.0, 2.0, 3.0], "b": [2.0, 3.0, 5.0]}), 2, dim=3)
             elif kind == "pl_df_dim_mismatch":
@@ -423,7 +439,21 @@ def case_dask(ctx, index, rng: random.Random):
     mech = "adaptive.construct.no_finite_data" if starved else None
     # the bin specification: data-independent (a width), or derived from the data ("pretty": then from all of the data, not block by block)
     spec, spec_kw, spec_kw1 = "fixed_width", {"bin_width": list(wdt)}, {"bin_width": wdt[0]}
-    if rng.random() < 0.3 and not starved:
+    if rng.random() < 0.25 and not starved and not all_nan_chunk:
+        # many values, a good part of them NaN: the number of *valid* values decides the default number of "pretty" bins (the count
+        # crosses a power of two when the NaN entries are dropped)
+        n = rng.choice([66, 70, 130, 140, 260])
+        rows = np.array([[wdt[ax] * rng.uniform(-15, 15) for ax in range(d)] for _ in range(n)])
+        for k_ in rng.sample(range(n), n // 8 + rng.randint(0, 3)):
+            rows[k_, rng.randrange(d)] = np.nan
+        chunks = rng.randint(7, max(8, n // 3))
+        finite = ~np.isnan(rows).any(axis=1)
+        starved = any(not finite[i:i + chunks].any() for i in range(0, n, chunks))
+        desc.update({"rows": gen.hexlist(rows.ravel())[:40], "chunks": chunks, "many_nan": int((~finite).sum())})
+        spec = "pretty"
+        spec_kw, spec_kw1 = {}, {}
+        desc["spec"] = [spec, {}]
+    elif rng.random() < 0.3 and not starved:
         spec = rng.choice(["pretty", "human"])
         opt = rng.randrange(3)
         spec_kw = {} if opt == 0 else ({"bin_count": rng.choice([5, 10, 20])} if opt == 1 else {"range": (-40.0, 60.0)})
